@@ -266,7 +266,7 @@ def execute(plan):
                         raise StopProj2()
                     seen_.append(c03.observe_answer(sim, qa_))
                 try:
-                    yp_.evaluate_bounded(yp_.query(name, qa_), proj_, recursion_limit=lim0)
+                    yp_.evaluate_bounded(yp_.query(name, qa_), proj_, recursion_limit=lim0 - 1000)
                     end_ = 'returned'
                 except StopProj2:
                     end_ = 'cap'
